@@ -153,6 +153,15 @@ func WithSpare[T any](name string, s []T, maxSpare int) []T {
 	return ns
 }
 
+// JSONMsg is the message a client would send for value v.
+func JSONMsg(v any) []byte {
+	b, err := json.Marshal(v)
+	if err != nil {
+		panic(err)
+	}
+	return b
+}
+
 func Or(a, b bool) bool      { return a || b }
 func And(a, b bool) bool     { return a && b }
 func Implies(a, b bool) bool { return !a || b }
